@@ -370,7 +370,13 @@ def a_r1_getattr(schema: Schema, rep: Report):
                     if h.type is None:
                         names |= {"KeyError", "AttributeError"}
                     else:
-                        for x in ast.walk(h.type):
+                        htype = h.type
+                        if isinstance(htype, ast.Name):
+                            # a local holding the tuple of exception classes
+                            hds = [s_ for s_ in own_statements(fn) if isinstance(s_, ast.Assign) and len(s_.targets) == 1 and isinstance(s_.targets[0], ast.Name) and s_.targets[0].id == htype.id]
+                            if len(hds) == 1:
+                                htype = hds[0].value
+                        for x in ast.walk(htype):
                             if isinstance(x, ast.Name):
                                 names.add(x.id)
                 if {"KeyError", "AttributeError"} <= names or "Exception" in names or "LookupError" in names and "AttributeError" in names:
